@@ -30,7 +30,7 @@ RULE = (
     "sha1 of (input bytes, mode)"
 )
 BOUNDS = {
-    "quick": "m<=4 all 33 permutations (+ rank profiles: every (independent rows, pivot columns) pattern for m,n<=4; larger generic shapes 65x3, 70x4, 130x2, 3x70, 40x40), n in {1,m-1,m,m+1}, 3 letter kinds, 2 modes; singular cells m,n<=4; ties m<=3; generic m,n<=5; exhaustive small-integer cells: all 2x2 over {0,1,-1,i,j,k}, 3x3 over {-1,0,1} (every 4th), 2x3/3x2 over {0,1,i,j} (every 4th)",
+    "quick": "m<=4 all 33 permutations (+ rank profiles: every (independent rows, pivot columns) pattern for m,n<=4; larger generic shapes 65x3, 70x4, 130x2, 3x70, 40x40), n in {1,m-1,m,m+1}, 3 letter kinds, 2 modes; singular cells m,n<=4; ties m<=3; generic m,n<=5; exhaustive small-integer cells: all 2x2 over {0,1,-1,i,j,k}, 3x3 over {-1,0,1} (every 4th), 2x3/3x2 over {0,1,i,j} (every 4th); l1/l2 pivot candidates: single-component vs k-component entries (k=2,3,4) x 4 components x 3 modulus ratios x 2 orders x pivot column 0..2",
     "thorough": "m<=7 all 5913 permutations, n in {1,m-1,m,m+1,m+2}, 4 letter kinds, 2 modes; singular cells m,n<=5; ties m<=3; generic m,n<=6 x 4 fill rows; exhaustive small-integer cells in full (2x2 over {0,1,-1,i,j,k}, 3x3 over {-1,0,1}, 2x3/3x2 over {0,1,i,j}) and 3x3 over {-1,0,1,2} (every 16th)",
 }
 THOROUGH_STREAMS = 3
